@@ -15,7 +15,7 @@ META = {
     "engine": "A (all ordered pairs / triples / subsets over a finite family of matrices)",
     "rule": "a case = ordered pair (or triple) of family members, or (state, kept subset); non-trivial = the two states differ and at least one is mixed or non-stabilizer; "
             "distinct = distinct index tuples",
-    "bounds": {"quick": "1 qubit: 10 pure + 91 mixed, all 10 201 ordered pairs and all triples of a 30-element sub-family; 2 qubits: 64 pure + 136 mixed, all 40 000 ordered pairs; "
+    "bounds": {"quick": "1 qubit: 10 pure + 101 mixed (10 of them weakly mixed, purity within 1e-3 of 1), all ordered pairs and all triples of a 30-element sub-family; 2 qubits: 64 pure + 136 mixed, all 40 000 ordered pairs; "
                         "partial trace: all stabilizer states n<=3 + 30 mixed x every proper kept subset x 4 entry points; Infidelity/TraceDistance on all 3600 pairs of S_2 x 4 representation combinations",
                "thorough": "2-qubit family of 600"},
     "assumptions": ["continuous inputs are represented by this finite family (values outside it are not covered)", "tolerance 1e-9 on fidelities and distances"],
@@ -39,6 +39,9 @@ def family1():
         if j != i:
             mats.append(0.25 * mats[i] + 0.75 * mats[j]); names.append("mix(%d,%d,1/4)" % (i, j))
     mats.append(np.eye(2, dtype=complex) / 2); names.append("maxmixed")
+    for i, j in ((0, 2), (1, 4), (6, 3), (7, 9), (2, 8)):
+        for w in (0.9997, 0.9999):  # weakly mixed: purity within 1e-3 of 1
+            mats.append(w * mats[i] + (1 - w) * mats[j]); names.append("mix(%d,%d,%g)" % (i, j, w))
     return mats, names
 
 
@@ -78,6 +81,9 @@ def shards(tier):
     for a in range(0, 60, 4):
         out.append({"kind": "metric", "lo": a, "hi": a + 4})
     return out
+
+
+_INF = {}
 
 
 def check_pair(acc, rho, sig, case, equal):
@@ -217,8 +223,19 @@ def run_shard(shard, tier, acc):
                     tgt = QuantumState(sv.dm(va), rep_type="dm") if ta == "dm" else QuantumState(gq.group_to_clifford_tableau(st[i]), rep_type="s")
                     sta = QuantumState(sv.dm(vb), rep_type="dm") if tb == "dm" else QuantumState(gq.group_to_clifford_tableau(st[j]), rep_type="s")
                     try:
-                        v = float(Infidelity(tgt).evaluate(sta, None))
+                        # one metric object is reused and its target re-pointed, as a sweep over targets would do
+                        met = _INF.get("m")
+                        if met is None:
+                            met = _INF["m"] = Infidelity(tgt)
+                        met.target = tgt
+                        v = float(met.evaluate(sta, None))
                         vals[(ta, tb)] = v
+                        okt = gq.tableau_group(tgt.rep_data.data).same_state(st[i]) if (tgt.rep_type == "s" and type(tgt.rep_data).__name__ == "Stabilizer") else (
+                            tgt.rep_type == "dm" and np.max(np.abs(np.asarray(tgt.rep_data.data) - sv.dm(va))) < 1e-9)
+                        oks = gq.tableau_group(sta.rep_data.data).same_state(st[j]) if (sta.rep_type == "s" and type(sta.rep_data).__name__ == "Stabilizer") else (
+                            sta.rep_type == "dm" and np.max(np.abs(np.asarray(sta.rep_data.data) - sv.dm(vb))) < 1e-9)
+                        if ta != tgt.rep_type or tb != sta.rep_type or not okt or not oks:
+                            acc.violation("metric", "Infidelity.evaluate", "target-or-state-object-changed-by-evaluation", case, "unchanged", {"target_ok": bool(okt), "state_ok": bool(oks)})
                         if abs(v - want) > 1e-7:
                             acc.violation("metric", "Infidelity.evaluate", "differs-from-1-minus-overlap", case, want, v)
                     except Exception as e:
